@@ -11,8 +11,10 @@
 
    C12_no_panic_partial [U, partial coverage]: for every table set passing tables_ok12 and every operation of covered_op
                   the call returns (Ok or Err): no Pan, no Fuel.
-   C12_coverage   covered_op = every constructor of `op` except create_copied_sub_element(+_at), move_element_here(+_at)
-                  and set_character_data with a Float value (f64::to_string is not modelled): 22 of 26 constructors.
+   SizeOk w     = every identifiables map has fewer than 10^39 entries (`format!("{counter}")` of make_unique_item_name
+                  is injective on the counters that can occur; only the copy operations use it).
+   C12_coverage   covered_op = every constructor of `op` except move_element_here(+_at) and set_character_data with a
+                  Float value (f64::to_string is not modelled): 24 of 26 constructors.
                   pending_op = the rest: covered by the correspondence + implementation fuzzer only.
    C12_tables_real [F]: tables_ok12 holds for the regenerated tables.
    C12_depth_tree / C12_depth_walk [U]: the subtree below any node has height < number of allocated nodes + 1 (= the fuel
@@ -22,7 +24,7 @@
    Findings (fixed in /repo, the sites are gone from Ops.v): c28d8d2, dbf2768, 8b342ea — see findings/C12-panic-*. *)
 From AV Require Import Base.Bytes Base.Outcome Hash.HashModel Hash.HashRealEnum Hash.HashRealElement Spec.SpecOps Spec.SpecReal Xml.TablesOk.
 From AV Require Import Tree.Heap Tree.Ops Tree.Script Tree.Inv Tree.NoPanic.
-From AV Require Import Tree.NoPanicProofsBase Tree.NoPanicProofsDepth Tree.NoPanicProofsMain Tree.NoPanicReal.
+From AV Require Import Tree.NoPanicProofsBase Tree.NoPanicProofsDepth Tree.NoPanicProofsCopy2 Tree.NoPanicProofsMain Tree.NoPanicReal.
 Open Scope N_scope.
 
 Theorem C12_no_panic_partial :
@@ -32,14 +34,14 @@ Theorem C12_no_panic_partial :
     nametab_ok tab_en = true ->
     name_ok tab_el (name_short_name T) ->
     forall w o,
-      covered_op o = true -> PanicFree T tab_el tab_en w -> op_wf tab_el tab_en w o ->
+      covered_op o = true -> PanicFree T tab_el tab_en w -> SizeOk w -> op_wf tab_el tab_en w o ->
       (forall s, run_op T tab_el tab_en check_fn LATEST root_attrs o w <> Pan s) /\
       run_op T tab_el tab_en check_fn LATEST root_attrs o w <> Fuel.
 Proof. exact no_panic_covered'. Qed.
 
 Theorem C12_coverage : forall o,
   covered_op o = match o with
-                 | OpCopy _ _ | OpCopyAt _ _ _ | OpMove _ _ | OpMoveAt _ _ _ => false
+                 | OpMove _ _ | OpMoveAt _ _ _ => false
                  | OpSetCData _ (DFloat _) => false
                  | _ => true
                  end.
